@@ -40,6 +40,7 @@ type c20Case struct {
 		Comps string `json:"comps"`
 	} `json:"base"`
 	G *c20gGraph `json:"g,omitempty"` // base kind "graph": the reference graph (spec/RefGraph.tla)
+	S *c20sShare `json:"s,omitempty"` // base kind "share": two references to one file (spec/RefShare.tla)
 }
 
 // c20Sparse builds a sparse base (spec/Robust.tla): the root refers to component X of the kind in
@@ -257,7 +258,7 @@ func c20Apply(root any, m c20Mut, idx int, dir string, r *c20Render) any {
 	if c20LexIs(m.Op) {
 		return c20LexApply(root, m.Op, n.path, len(c20Applied), &r.lex)
 	}
-	if strings.HasPrefix(m.Op, "schema_") {
+	if strings.HasPrefix(m.Op, "schema_") || strings.HasPrefix(m.Op, "num:") || strings.HasPrefix(m.Op, "len:") {
 		// keyword injections go to the (index mod count)-th schema object of the document
 		var ss []c20Node
 		for _, x := range nodes {
@@ -276,6 +277,23 @@ func c20Apply(root any, m c20Mut, idx int, dir string, r *c20Render) any {
 		o := map[string]any{}
 		for k, v := range old {
 			o[k] = v
+		}
+		if par := strings.Split(m.Op, ":"); par[0] == "num" && len(par) == 5 {
+			// num:<type>:<multipleOf>:<site>:<value> (spec/Robust.tla NumOps)
+			o = map[string]any{"multipleOf": json.Number(par[2])}
+			if par[1] != "none" {
+				o["type"] = par[1]
+			}
+			if par[3] == "enum" {
+				o["enum"] = []any{json.Number(par[4])}
+			} else {
+				o[par[3]] = json.Number(par[4])
+			}
+			return c20Set(root, n.path, o, false)
+		} else if par[0] == "len" && len(par) == 3 {
+			// len:<keyword>:<value> (LenOps)
+			o[par[1]] = json.Number(par[2])
+			return c20Set(root, n.path, o, false)
 		}
 		switch m.Op {
 		case "schema_bad_pattern_example":
@@ -527,7 +545,7 @@ func c20Run(c *Case) []any {
 	if err := dec.Decode(&root); err != nil {
 		panic(err)
 	}
-	if tc.Base.Comps != "" && tc.Base.Comps != "full" && tc.Base.Kind != "blob" && tc.Base.Kind != "graph" {
+	if tc.Base.Comps != "" && tc.Base.Comps != "full" && tc.Base.Kind != "blob" && tc.Base.Kind != "graph" && tc.Base.Kind != "share" {
 		root = c20Sparse(tc.Base.Kind, tc.Base.Comps, dir)
 	}
 	rootName := "root.json"
@@ -540,6 +558,13 @@ func c20Run(c *Case) []any {
 		}
 		root = c20gBuild(*tc.G, dir, rootName)
 	}
+	if tc.Base.Kind == "share" {
+		if tc.S == nil {
+			panic("harness: c20 share case without s")
+		}
+		root = c20sBuild(*tc.S, dir)
+	}
+	small := tc.Base.Kind == "graph" || tc.Base.Kind == "share" // the generated small documents: every further entry point
 	r := &c20Render{truncateAt: -1}
 	c20Applied = []any{}
 	for _, m := range tc.Muts {
@@ -611,7 +636,7 @@ func c20Run(c *Case) []any {
 	obs["validate"] = c20Stage("validate", func() error { return doc.Validate(context.Background()) })
 	obs["marshal_json"] = c20Stage("marshal_json", func() error { _, e := json.Marshal(doc); return e })
 	obs["marshal_yaml"] = c20Stage("marshal_yaml", func() error { _, e := yaml.Marshal(doc); return e })
-	if tc.Base.Kind == "graph" {
+	if small {
 		// every further validator / serialiser / resolver entry point of a loaded document (spec/RefGraph.tla GStages)
 		obs["validate_enabled"] = c20Stage("validate_enabled", func() error {
 			return doc.Validate(context.Background(), openapi3.EnableSchemaFormatValidation(), openapi3.EnableSchemaPatternValidation(),
@@ -639,7 +664,7 @@ func c20Run(c *Case) []any {
 	obs["internalize"] = c20Stage("internalize", func() error { doc.InternalizeRefs(context.Background(), nil); return nil })
 	if obs["internalize"] == "ok" {
 		obs["validate_after"] = c20Stage("validate_after", func() error { return doc.Validate(context.Background()) })
-		if tc.Base.Kind == "graph" {
+		if small {
 			obs["marshal_after"] = c20Stage("marshal_after", func() error { _, e := json.Marshal(doc); return e })
 			obs["internalize_again"] = c20Stage("internalize_again", func() error { doc.InternalizeRefs(context.Background(), nil); return nil })
 		}
